@@ -152,8 +152,7 @@ HelperRec(r) ==
                           [op |-> "pool", nprocs |-> r.nprocs, xs |-> r.xs, a |-> r.a, b |-> r.b, kind |-> IF r.nprocs = 1 THEN "serial" ELSE "process",
                            maxw |-> IF r.nprocs > 1 THEN r.nprocs ELSE 0, cpu |-> r.nprocs < 1, sub |-> res, map |-> res, err |-> ""]
       [] r.op = "rm" -> [op |-> "rm", kind |-> r.kind, exists_after |-> r.kind = "dir", err |-> ""]
-      [] r.op = "chunks" -> IF r.gz /\ Len(r.lines) > 0 THEN [op |-> "chunks", lines |-> r.lines, size |-> r.size, gz |-> r.gz, chunks |-> <<>>, err |-> "TypeError"]
-                            ELSE [op |-> "chunks", lines |-> r.lines, size |-> r.size, gz |-> r.gz, chunks |-> ChunkCoded(r), err |-> ""]
+      [] r.op = "chunks" -> [op |-> "chunks", lines |-> r.lines, size |-> r.size, gz |-> r.gz, chunks |-> ChunkCoded(r), err |-> ""]
 ALayerRec == IF inp.op = "batch" THEN BatchRec(inp.cfg, st) ELSE HelperRec(inp)
 
 Judged(strict) == AFinal(st) =>
@@ -167,6 +166,6 @@ NoSelfDrift == AFinal(st) => ~Drift(ALayerRec)            \* the machine's runs 
 SampleFilesOf(c) == UNION {BSetOf(SampleSteps(c, c.tumors[j])) : j \in 1..Len(c.tumors)}
 RefBeforeSamples == inp.op = "batch" => LET c == inp.cfg IN
     (BSetOf(st.files) \cap SampleFilesOf(c) # {}) => (Reuse(c) \/ RefPath(c) \in BSetOf(st.files) \cup st.changed)
-RefusalLeavesNothing == (inp.op = "batch" /\ st.pc = "error" /\ st.err[1] \in {"SystemExit", "ValueError"}) => (st.files = <<>> /\ st.changed = {})
+RefusalLeavesNothing == (inp.op = "batch" /\ st.pc = "error") => (st.files = <<>> /\ st.changed = {})
 NoFileTwice == inp.op = "batch" => \A i, j \in 1..Len(st.files) : st.files[i] = st.files[j] => i = j
 =============================================================================
